@@ -358,12 +358,9 @@ def add_ties(rng: random.Random, scn: dict, cfg_index: int = 0) -> bool:
     rids = list(world["real_ids"])
     if not filters or len(rids) < 2 or world.get("identical"):
         return False
-    # (single sort keys only: a weighted sum of several keys may differ in the last bit between two rows of one matrix
-    # product, which would make "exactly tied" depend on the BLAS kernel)
-    single = [f for f in filters if not (f["method"].endswith("objective") and len(f["options"]["sort"]) != 1)]
-    if not single:
-        return False
-    flt = rng.choice(single)
+    # (filters with several sort keys included: the library sums the weighted keys realization by realization, so
+    # bit-identical keys give bit-identical sort values - with a matrix product they did not, fix 4a1e1b5)
+    flt = rng.choice(filters)
     if flt["method"].endswith("objective"):
         keys = [("o", int(k)) for k in flt["options"]["sort"]]
     else:
